@@ -48,8 +48,13 @@ fn run_stage_child(id: &str, stage: &Stage, tier: Tier, seed: u64) -> Result<Sta
         .output()
         .map_err(|e| format!("cannot run {}: {e}", bin.display()))?;
     let stdout = String::from_utf8_lossy(&out.stdout);
-    if out.status.code() == Some(3) {
+    if out.status.code() == Some(2) && stdout.contains("INCONCLUSIVE") {
         return Err(format!("child hang: {stdout}"));
+    }
+    if out.status.code() == Some(1) && stdout.contains("VIOLATION") && !stdout.contains("STATS ") {
+        // a confirmed hang in the child: pass its lines through
+        print!("{stdout}");
+        std::process::exit(1);
     }
     let line = stdout
         .lines()
